@@ -3,7 +3,7 @@
 (* files reached through real calls, and random walks with RandomElement.                                  *)
 EXTENDS ApproxEval, Json
 
-CONSTANTS Randomize, Depth, SimLen, Prefix, VecPool, ScalarPool, OpPool, KeyKinds, RotPool, PtScales, VecLens
+CONSTANTS Randomize, Depth, SimLen, Prefix, VecPool, ScalarPool, OpPool, KeyKinds, RotPool, PtScales, VecLens, LdPool
 
 VARIABLE hist
 gvars == <<reg, keys, hist>>
@@ -42,6 +42,7 @@ GenCall ==
         \* the level of a rotation by 0 into a receiver below the input is left open (plain copy or minimum, see Call):
         \* programs whose continuation would depend on it are not generated
         /\ ((op = "Rotate" /\ k = 0 /\ ~nw /\ reg[o].ok) => reg[o].lvl >= reg[a].lvl)
+        /\ (Callable(st) => LdSafe(st))
         /\ \E d \in 1..2 : \E e \in BOOLEAN : Call(st, [deg |-> d, err |-> e, lvl |-> 0 - 1]) /\ (e \/ d = CHOOSE x \in Res(st).degs : \A y \in Res(st).degs : x <= y)
         /\ InBounds'
         /\ hist' = Append(hist, st)
@@ -49,9 +50,10 @@ GenCall ==
 GenLoad ==
     \E o \in Pick(Reg) : \E x \in Pick(VecPool) : \E l \in Pick(0..L) :
         /\ (Real => \A i \in 1..NS : x.v[i][2] = 0)
-        /\ Load(o, [i \in Slot |-> x.v[i]], x.fb, LDelta, l)
-        /\ InBounds'
-        /\ hist' = Append(hist, [op |-> "Load", o |-> o, v |-> x.v, fb |-> x.fb, ls |-> LDelta, lvl |-> l])
+        /\ \E d \in Pick(LdPool) :
+             /\ Load(o, [i \in Slot |-> x.v[i]], x.fb, LDelta, l, d)
+             /\ InBounds'
+             /\ hist' = Append(hist, [op |-> "Load", o |-> o, v |-> x.v, fb |-> x.fb, ls |-> LDelta, lvl |-> l, ld |-> d])
 
 GenDrop == /\ "DropLevel" \in OpPool
            /\ \E a \in Pick(Reg) : \E k \in Pick(1..2) :
@@ -67,7 +69,7 @@ GenReset == \E ks \in Pick(KeyKinds) : Reset(ks) /\ hist' = Append(hist, [op |->
 
 PrefixStep(st) ==
     /\ CASE st.op = "Reset" -> Reset(st.keys)
-         [] st.op = "Load"  -> Load(st.o, [i \in Slot |-> st.v[i]], st.fb, st.ls, st.lvl)
+         [] st.op = "Load"  -> Load(st.o, [i \in Slot |-> st.v[i]], st.fb, st.ls, st.lvl, st.ld)
          [] st.op = "DropLevel" -> DropLevel(st.a, st.k)
          [] st.op = "SetScale" -> SetScale(st.a, st.k, FALSE)
          [] OTHER -> \E d \in 1..2 : Call(st, [deg |-> d, err |-> FALSE, lvl |-> 0 - 1]) /\ d = CHOOSE x \in Res(st).degs : \A y \in Res(st).degs : x <= y
@@ -79,8 +81,9 @@ GenNext ==
     \/ /\ Prefix = <<>> /\ Len(hist) \in 1..NR
        /\ \E x \in Pick(VecPool) : \E l \in Pick(0..L) :
             /\ (Real => \A i \in 1..NS : x.v[i][2] = 0)
-            /\ Load(Len(hist), [i \in Slot |-> x.v[i]], x.fb, LDelta, l) /\ InBounds'
-            /\ hist' = Append(hist, [op |-> "Load", o |-> Len(hist), v |-> x.v, fb |-> x.fb, ls |-> LDelta, lvl |-> l])
+            /\ \E d \in Pick(LdPool) :
+                 /\ Load(Len(hist), [i \in Slot |-> x.v[i]], x.fb, LDelta, l, d) /\ InBounds'
+                 /\ hist' = Append(hist, [op |-> "Load", o |-> Len(hist), v |-> x.v, fb |-> x.fb, ls |-> LDelta, lvl |-> l, ld |-> d])
     \/ /\ Len(hist) >= (IF Prefix = <<>> THEN NR + 1 ELSE Len(Prefix)) /\ Len(hist) < Depth
        /\ (GenCall \/ GenCall \/ GenCall \/ GenLoad \/ GenDrop \/ GenSetScale)
     \/ /\ Randomize /\ UNCHANGED gvars
